@@ -535,3 +535,59 @@ func VerifC09Arithmetic() {
 	verifAssert(verifEqStr(got, verifItoa(want)), "C09/unparenthesised-arithmetic-means-something-else expr="+c09ArithExprs[which])
 	verifCover("C09/arith/end")
 }
+
+// c09Nullary: operators that take no argument: in an expression they are operands like a path or a number.
+var c09Nullary = []string{"length", "keys", "max", "min", "any", "all", "sort", "reverse", "unique", "flatten", "to_entries", "path", "key", "parent", "tag", "kind", "type", "style",
+	"anchor", "line", "column", "document_index", "file_index", "filename", "not", "to_number", "tostring", "upcase", "downcase", "trim", "splitDoc", "explode(.)", "to_yaml", "map(.)", "first", "pivot"}
+
+// VerifC09NullaryOperands: an operator without arguments is an operand: `X op Y` means `(X) op Y` for every binary
+// operator — it is not itself subject to precedence. Both spellings are evaluated on the same documents.
+func VerifC09NullaryOperands() {
+	InitExpressionParser()
+	x := c09Nullary[verifChoice("x", len(c09Nullary))]
+	ops := []string{"+", "==", "//", "|", ",", "*", "-", "and", "<"}
+	op := ops[verifChoice("op", len(ops))]
+	rhs := []string{"1", ".", "[1]", "\"s\""}[verifChoice("rhs", 4)]
+	side := verifChoice("side", 2)
+	plain, grouped := x+" "+op+" "+rhs, "("+x+") "+op+" "+rhs
+	if side == 1 {
+		plain, grouped = rhs+" "+op+" "+x, rhs+" "+op+" ("+x+")"
+	}
+	di := verifChoice("doc", 3)
+	doc := func() *CandidateNode {
+		switch di {
+		case 0:
+			return vDoc(vSeq(vInt("1"), vInt("2")))
+		case 1:
+			return vDoc(vMap(vStr("a"), vSeq(vInt("3"))))
+		}
+		return vDoc(vStr("word"))
+	}
+	run := func(text string) (string, bool, bool) {
+		e, err := ExpressionParser.ParseExpression(text)
+		if err != nil {
+			return "", false, false
+		}
+		res, err := vEval(e, doc())
+		if err != nil {
+			return "", true, false
+		}
+		return vDumpList(res), true, true
+	}
+	got, parsedP, okP := run(plain)
+	want, parsedG, okG := run(grouped)
+	label := "x=" + x + " op=" + op
+	if !parsedG {
+		verifCover("C09/nullary/unknown-word")
+		return // not an operator of this version
+	}
+	verifAssert(parsedP, "C09/operator-without-arguments-not-accepted-as-an-operand "+label)
+	if !parsedP {
+		return
+	}
+	verifAssert(okP == okG, "C09/operator-without-arguments-groups-differently "+label)
+	if okP && okG {
+		verifAssert(got == want, "C09/operator-without-arguments-groups-differently "+label)
+	}
+	verifCover("C09/nullary/end")
+}
